@@ -34,6 +34,8 @@ def main():
         subprocess.run(["git", "-C", "/repo", "checkout", "--", "."], check=True)
         # regenerated tables belong to the clean tree again
         subprocess.run(["/venv/bin/python", os.path.join(VERIF, "harness", "extract.py")], stdout=subprocess.DEVNULL)
+        # the evidence files describe the unchanged tree, not this excursion
+        subprocess.run(["git", "-C", VERIF, "checkout", "--", "evidence"], stdout=subprocess.DEVNULL)
     meta.setdefault("detection", {}).update(results)
     json.dump(meta, open(os.path.join(d, "meta.json"), "w"), indent=1)
     return 0
